@@ -223,4 +223,198 @@ theorem demesPresent_rescale {a : ℚ} (ha : 0 < a) (b : ℚ) (g : Graph InEpoch
   simp only [Function.comp_def, liveIn_rescale ha]
   cases h : liveIn g iv.1 iv.2 <;> simp
 
+/-! ### one row of the plan -/
+
+theorem intTime_scale {c : ℚ} (hc : c ≠ 0) (i0 i1 : ETime) (Ne : ℚ) :
+    intTime (tscale c i0) (tscale c i1) (c * Ne) = intTime i0 i1 Ne := by
+  unfold intTime
+  rw [isInf_tscale, tval_tscale, tval_tscale]
+  split_ifs
+  · rfl
+  · rw [← mul_sub, div_div, div_div, mul_comm (2 : ℚ) (c * Ne), mul_assoc, mul_div_mul_left _ _ hc, mul_comm Ne 2]
+
+theorem migEntry_scale {c : ℚ} (hc : c ≠ 0) (Ne m : ℚ) : migEntry (c * Ne) (m / c) = migEntry Ne m := by
+  unfold migEntry
+  field_simp
+
+theorem nuFn_scale (ex lg : ℚ → ℚ) (pw : ℚ → ℚ → ℚ) {c : ℚ} (hc : c ≠ 0) (fn : SizeFn) (allc : Bool) (a b a' b' : Sym) (Ne T t : ℚ)
+    (ha : a'.eval ex lg pw = c * a.eval ex lg pw) (hb : b'.eval ex lg pw = c * b.eval ex lg pw) :
+    (nuFn fn allc a' b' (c * Ne) T t).map (Sym.eval ex lg pw) = (nuFn fn allc a b Ne T t).map (Sym.eval ex lg pw) := by
+  have hdiv : ∀ x : ℚ, c * x / (c * Ne) = x / Ne := fun x => mul_div_mul_left _ _ hc
+  cases allc <;> cases fn <;>
+    simp [nuFn, nuConstList, nuConstFn, nuLinear, nuExp, Sym.eval, ha, hb, hdiv, mul_div_mul_left _ _ hc, ← mul_sub] <;>
+    first | ring1 | (field_simp; try ring1)
+
+theorem migMatrix_rescale {c : ℚ} (hc : 0 < c) (migs : List GMig) (live : List DName) (i0 i1 : ETime) (Ne : ℚ) :
+    migMatrix (migs.map (GMig.rescale c c)) live (tscale c i0) (tscale c i1) (c * Ne) = migMatrix migs live i0 i1 Ne := by
+  unfold migMatrix
+  simp only [migRate_rescale hc, migEntry_scale (ne_of_gt hc)]
+
+theorem map_name_rescale (a b : ℚ) (l : List (GDeme InEpoch)) : (l.map (GDeme.rescale a b)).map (·.name) = l.map (·.name) := by
+  rw [List.map_map]; rfl
+
+theorem planRow_rescale {c : ℚ} (hc : 0 < c) (g : Graph InEpoch) (frozenList : List DName) (Ne : ℚ) (iv : ETime × ETime)
+    (live : List (GDeme InEpoch)) :
+    planRow (g.rescale c c) frozenList (c * Ne) (tscale c iv.1, tscale c iv.2) (live.map (GDeme.rescale c c))
+      = planRow g frozenList Ne iv live := by
+  unfold planRow
+  simp only [map_name_rescale, intTime_scale (ne_of_gt hc)]
+  rw [show (g.rescale c c).migs = g.migs.map (GMig.rescale c c) from rfl, migMatrix_rescale hc]
+  congr 1
+  rw [List.all_map]
+  apply List.all_congr rfl
+  intro d
+  have := demeSizes_fn_rescale hc d iv.1 iv.2
+  simp only [Function.comp_def]
+  cases h1 : demeSizes d iv.1 iv.2 with
+  | none =>
+    rw [h1] at this
+    cases h2 : demeSizes (GDeme.rescale c c d) (tscale c iv.1) (tscale c iv.2) with
+    | none => rfl
+    | some q => rw [h2] at this; simp at this
+  | some p =>
+    rw [h1] at this
+    cases h2 : demeSizes (GDeme.rescale c c d) (tscale c iv.1) (tscale c iv.2) with
+    | none => rw [h2] at this; simp at this
+    | some q =>
+      rw [h2] at this
+      simp only [Option.map_some, Option.some.injEq] at this
+      obtain ⟨f1, x1, y1⟩ := p
+      obtain ⟨f2, x2, y2⟩ := q
+      simp only at this
+      simp [this]
+
+theorem plan_rescale {c : ℚ} (hc : 0 < c) (g : Graph InEpoch) (frozenList : List DName) (Ne : ℚ) :
+    plan (g.rescale c c) frozenList (c * Ne) = plan g frozenList Ne := by
+  unfold plan
+  rw [demesPresent_rescale hc, List.map_map]
+  apply List.map_congr_left
+  intro p _
+  exact planRow_rescale hc g frozenList Ne p.1 p.2
+
+/-- evaluation of the table of `nu` terms -/
+def evalNu (ex lg : ℚ → ℚ) (pw : ℚ → ℚ → ℚ) (tab : List (List (Option Sym))) : List (List (Option ℚ)) :=
+  tab.map fun row => row.map fun o => o.map (Sym.eval ex lg pw)
+
+theorem planNu_rescale (ex lg : ℚ → ℚ) (pw : ℚ → ℚ → ℚ) {c : ℚ} (hc : 0 < c) (g : Graph InEpoch) (Ne frac : ℚ) :
+    evalNu ex lg pw (planNu (g.rescale c c) (c * Ne) frac) = evalNu ex lg pw (planNu g Ne frac) := by
+  unfold evalNu planNu
+  rw [demesPresent_rescale hc, List.map_map, List.map_map, List.map_map]
+  apply List.map_congr_left
+  intro p _
+  simp only [Function.comp_def, List.map_map]
+  have hrow := planRow_rescale hc g [] Ne p.1 p.2
+  rw [hrow, intTime_scale (ne_of_gt hc)]
+  apply List.map_congr_left
+  intro d _
+  have := demeSizes_rescale ex lg pw hc d p.1.1 p.1.2
+  cases h1 : demeSizes d p.1.1 p.1.2 with
+  | none =>
+    rw [h1] at this
+    cases h2 : demeSizes (GDeme.rescale c c d) (tscale c p.1.1) (tscale c p.1.2) with
+    | none => rfl
+    | some q => rw [h2] at this; simp at this
+  | some q0 =>
+    rw [h1] at this
+    cases h2 : demeSizes (GDeme.rescale c c d) (tscale c p.1.1) (tscale c p.1.2) with
+    | none => rw [h2] at this; simp at this
+    | some q =>
+      rw [h2] at this
+      obtain ⟨f1, x1, y1⟩ := q0
+      obtain ⟨f2, x2, y2⟩ := q
+      simp only [Option.map_some, Option.some.injEq, evalSizes, Prod.mk.injEq] at this
+      obtain ⟨hf, hx, hy⟩ := this
+      subst hf
+      exact nuFn_scale ex lg pw (ne_of_gt hc) f2 _ x1 y1 x2 y2 Ne _ _ hx hy
+
+/-! ### events and the loop of `_compute_sfs` -/
+
+/-- the library's events with their times in the new unit -/
+def libScale (a : ℚ) (lib : List (ℚ × DEvt)) : List (ℚ × DEvt) := lib.map fun p => (a * p.1, p.2)
+
+def evsScale (a : ℚ) (evs : List (ETime × DEvt)) : List (ETime × DEvt) := evs.map fun p => (tscale a p.1, p.2)
+
+theorem marginalizeCond_tscale {a : ℚ} (ha : 0 < a) (sampled : List DName) (d : DName) (e : ETime) (l : List ETime) :
+    marginalizeCond sampled d (tscale a e) (l.map (tscale a)) = marginalizeCond sampled d e l := by
+  unfold marginalizeCond
+  simp only [List.length_map, List.all_map, Function.comp_def, tle_tscale ha]
+
+theorem demoEvents_rescale {a : ℚ} (ha : 0 < a) (b : ℚ) (g : Graph InEpoch) (lib : List (ℚ × DEvt)) (sampled : List DName) :
+    demoEvents (g.rescale a b) (libScale a lib) sampled = evsScale a (demoEvents g lib sampled) := by
+  unfold demoEvents evsScale libScale
+  rw [List.map_append, List.map_map, List.map_map]
+  congr 1
+  rw [show (g.rescale a b).demes = g.demes.map (GDeme.rescale a b) from rfl, List.filterMap_map, List.map_filterMap]
+  apply List.filterMap_congr
+  intro d _
+  simp only [Function.comp_def, endTime_rescale]
+  rw [show (GDeme.rescale a b d).name = d.name from rfl, List.filter_map, List.map_map]
+  have h : (List.map ((fun x => x.start) ∘ GDeme.rescale a b)
+        (List.filter ((fun x => x.ancestors.contains d.name) ∘ GDeme.rescale a b) g.demes))
+      = ((g.demes.filter fun x => x.ancestors.contains d.name).map (·.start)).map (tscale a) := by
+    rw [List.map_map]; rfl
+  rw [h, marginalizeCond_tscale ha]
+  split_ifs <;> rfl
+
+theorem eventsAt_scale {a : ℚ} (ha : a ≠ 0) (evs : List (ETime × DEvt)) (t : ETime) :
+    eventsAt (evsScale a evs) (tscale a t) = eventsAt evs t := by
+  unfold eventsAt evsScale
+  rw [List.filter_map, List.map_map]
+  simp only [Function.comp_def, teq_tscale ha]
+
+/-- the rows with the interval ends in the new unit -/
+def rowsScale (a : ℚ) (rows : List (PlanRow × ETime × List DName)) : List (PlanRow × ETime × List DName) :=
+  rows.map fun r => (r.1, tscale a r.2.1, r.2.2)
+
+theorem importLoop_scale {a : ℚ} (ha : 0 < a) (evs : List (ETime × DEvt)) (ids : List DName) (rows : List (PlanRow × ETime × List DName)) :
+    importLoop (evsScale a evs) ids (rowsScale a rows) = importLoop evs ids rows := by
+  induction rows generalizing ids with
+  | nil => rfl
+  | cons r rest ih =>
+    obtain ⟨row, i1, next⟩ := r
+    have h0 : tle (tscale a i1) (some 0) = tle i1 (some 0) := by
+      have := tle_tscale ha i1 (some 0)
+      simpa using this
+    simp only [rowsScale, List.map_cons, importLoop, eventsAt_scale (ne_of_gt ha), h0]
+    have ih' := fun ids => ih ids
+    simp only [rowsScale] at ih'
+    simp only [ih']
+
+@[simp] theorem rescale_name (a b : ℚ) (d : GDeme InEpoch) : (GDeme.rescale a b d).name = d.name := rfl
+
+theorem zip3_map {α β γ : Type} (f : β → β) (P : List α) (E : List β) (N : List γ) :
+    P.zip ((E.map f).zip N) = (P.zip (E.zip N)).map (fun r => (r.1, f r.2.1, r.2.2)) := by
+  induction P generalizing E N with
+  | nil => simp
+  | cons p ps ih =>
+    cases E with
+    | nil => simp
+    | cons e es =>
+      cases N with
+      | nil => simp
+      | cons n ns => simp [ih]
+
+theorem loopRows_rescale {c : ℚ} (hc : 0 < c) (g : Graph InEpoch) (frozenList : List DName) (Ne : ℚ) :
+    loopRows (g.rescale c c) frozenList (c * Ne) = rowsScale c (loopRows g frozenList Ne) := by
+  unfold loopRows rowsScale
+  rw [plan_rescale hc, demesPresent_rescale hc]
+  simp only [List.map_map, Function.comp_def, rescale_name]
+  have h1 : (List.map (fun x : (ETime × ETime) × List (GDeme InEpoch) => tscale c x.1.2) (demesPresent g))
+      = ((demesPresent g).map fun p => p.1.2).map (tscale c) := by
+    rw [List.map_map]; rfl
+  rw [h1]
+  exact zip3_map (tscale c) _ _ _
+
+theorem firstIds_rescale {a : ℚ} (ha : 0 < a) (b : ℚ) (g : Graph InEpoch) : firstIds (g.rescale a b) = firstIds g := by
+  unfold firstIds
+  rw [demesPresent_rescale ha]
+  cases demesPresent g with
+  | nil => rfl
+  | cons p ps => simp [List.map_map, Function.comp_def]
+
+theorem importSteps_rescale {c : ℚ} (hc : 0 < c) (g : Graph InEpoch) (lib : List (ℚ × DEvt)) (sampled frozenList : List DName) (Ne : ℚ) :
+    importSteps (g.rescale c c) (libScale c lib) sampled frozenList (c * Ne) = importSteps g lib sampled frozenList Ne := by
+  unfold importSteps
+  rw [demoEvents_rescale hc, firstIds_rescale hc, loopRows_rescale hc, importLoop_scale hc]
+
 end DadiVerif.DemesConv
